@@ -59,7 +59,8 @@ def plan(tier):
 # text grammar
 
 DOCS = [None, '"""plain doc"""', "'''single quoted triple'''", '"one line"', "'x'",
-        '"""ends with a quote\\""""', '"""multi\n{ind}line doc\n{ind}"""', 'r"""raw \\d doc"""']
+        '"""ends with a quote\\""""', '"""multi\n{ind}line doc\n{ind}"""', 'r"""raw \\d doc"""',
+        '"two adjacent " "literals"', '("parenthesised "\n{ind} "adjacent literals")']
 
 
 def gen_stmts(draw, ind, name, params, feats):
@@ -241,7 +242,8 @@ def cases(draw):
     t["args"] = [[draw(st.integers(0, 4)) for _ in t["params"]] for _ in range(3)]
     t["new_doc"] = draw(st.sampled_from(["a new doc", "another one, with: punctuation", "line one\nline two",
                                          "with 'single' quotes", "a backslash \\n inside", 'ends with a quote"',
-                                         'has "double" quotes', "unicode \u00e9\u4e2d"]))
+                                         'has "double" quotes', "unicode \u00e9\u4e2d", 'ends with three quotes"""',
+                                         '"""', 'both \'\'\' and """ inside']))
     return t
 
 
@@ -445,8 +447,7 @@ def run_case(case):
         if raised is not None:
             if c.formula.source != before_src:
                 return out.fail("doc-edit-not-inert", "rejected doc edit (%r) changed the source" % (raised,))
-            plain = (not is_lambda and not case.get("oneline") and "\n" not in case["new_doc"]
-                     and "'" not in case["new_doc"] and '"' not in case["new_doc"] and "\\" not in case["new_doc"])
+            plain = not is_lambda and not case.get("oneline")     # (any text can be quoted as a docstring)
             if plain:
                 return out.fail("doc-edit-rejected", "doc = %r raised %r on\n%s" % (case["new_doc"], raised, before_src))
             out.label("doc_edit_rejected:" + ("oneline" if case.get("oneline") else repr(case["new_doc"])[:14]))
